@@ -68,6 +68,11 @@ int Senpai::init(
     return 1;
   }
 
+  if (pressure_ms_.count() <= 0) {
+    OLOG << "Argument=pressure_ms must be positive";
+    return 1;
+  }
+
   auto meminfo = Fs::getMeminfo();
   // TODO(dschatzberg): Report Error
   if (meminfo) {
